@@ -145,8 +145,15 @@ fn observe(cfg: &ReqCfg, api: &str, rec: &mut Rec) -> Result<(bool, usize, bool,
             let n1 = *r1.as_ref().unwrap_or(&0);
             rec.call();
             let r2 = c.write(&mut buf);
-            rec.ev(|| format!("Call<WithoutBody>.write #2 -> {:?} is_finished={}", r2, c.is_finished()));
-            Ok((r1.is_ok(), n1, r2.is_ok(), c.is_finished(), format!("{:?}", r1.err())))
+            let finished = c.is_finished();
+            // on this API "ready to advance" is is_finished() and, which must agree with it, into_receive()
+            rec.call();
+            let advanced = c.into_receive().is_ok();
+            rec.ev(|| format!("Call<WithoutBody>.write #2 -> {:?} is_finished={} into_receive().is_ok()={}", r2, finished, advanced));
+            if advanced && !finished {
+                return Err(format!("ADVANCED-UNFINISHED: into_receive() succeeded although is_finished() is false (writes: {:?}, {:?})", r1, r2));
+            }
+            Ok((r1.is_ok(), n1, r2.is_ok(), finished, format!("{:?}", r1.err())))
         }
     }
 }
@@ -174,6 +181,9 @@ fn cell(idx: u64, rec: &mut Rec) {
     let obs = observe(&cfg, api, rec);
     let (ok1, n1, ok2, ready, err) = match obs {
         Ok(v) => v,
+        Err(e) if e.starts_with("ADVANCED-UNFINISHED") => {
+            return rec.fail("C17/unwritten-request-advanced", format!("api={} {}: {}", api, cfg.describe(), e));
+        }
         Err(e) => {
             // refusal at construction time is a refusal before any byte
             match exp {
